@@ -18,7 +18,7 @@ from . import bibtok, core, splitobs
 
 NPREFIX = 33
 INVARIANTS = ["InvNoInternalError", "InvTiling", "InvLines", "InvFieldLines", "InvFailedCarry", "InvShapes",
-              "InvIncremental"]
+              "InvIncremental", "InvGrammar"]
 PROPERTIES = ["PrefixStable", "Resync"]
 
 
@@ -55,7 +55,7 @@ def _fast_chunk(lines):
     nvar = _G["nvar"]
     seed = _G["seed"]
     extra = _G.get("extra")
-    res = {"n": 0, "skipped": 0, "ok": 0, "slow": [], "samples": [], "extra": []}
+    res = {"n": 0, "skipped": 0, "ok": 0, "slow": [], "samples": [], "extra": [], "g": 0}
     for line in lines:
         e = core.parse_export(line)
         names = [bibtok.NAME_OF_W[w] for w in e["w"]]
@@ -67,6 +67,7 @@ def _fast_chunk(lines):
                 res["skipped"] += 1
                 continue
             res["n"] += 1
+            res["g"] += 1 if e.get("g") else 0
             raised, obs = splitobs.run_split(bib, text, "split")
             diff = None
             if raised is None:
@@ -87,7 +88,7 @@ def _fast_chunk(lines):
     return res
 
 
-def t2(chk: core.Check, bib, maxsuffix: int, prefixsel, nvar: int, extra=None, what: str = ""):
+def t2(chk: core.Check, bib, maxsuffix: int, prefixsel, nvar: int, extra=None, what: str = "", grammar: bool = False):
     """Returns (records of inputs that differ from the specification, counters)."""
     res = core.run_tlc("MC_Splitter", mc_cfg(maxsuffix, prefixsel), timeout=3000, heap="16g")
     chk.add_tlc(res, f"MC_Splitter MaxSuffix={maxsuffix} prefixes={len(list(prefixsel))}: " + ", ".join(INVARIANTS + PROPERTIES))
@@ -106,22 +107,23 @@ def t2(chk: core.Check, bib, maxsuffix: int, prefixsel, nvar: int, extra=None, w
     recs = []
     if slow:
         cap = 4000
-        recs, tlcs = splitobs.evaluate(bib, slow[:cap], "split")
+        recs, tlcs = splitobs.evaluate(bib, slow[:cap], "split", grammar=grammar)
         for r in tlcs:
             chk.add_tlc(r, "Oracle_Splitter (T2 slow path)", count_states=False)
         for r in recs:
             for k in IGNORED:
                 r["diff"].pop(k, None)
     counters = {"t2_inputs": res.exported, "t2_concrete_runs": n, "t2_spellings_not_roundtripping": skipped,
-                "t2_fast_path_equal": sum(o["ok"] for o in outs), "t2_slow_path": len(slow)}
+                "t2_fast_path_equal": sum(o["ok"] for o in outs), "t2_slow_path": len(slow),
+                "t2_runs_on_dialect_inputs": sum(o["g"] for o in outs)}
     chk.traces += n
     chk.evaluations += n
     chk.nontrivial.update(range(len(chk.nontrivial), len(chk.nontrivial) + res.exported))
     return [r for r in recs if r["diff"]], counters, extras
 
 
-def t3(chk: core.Check, bib, texts: List[str], how: str = "split"):
-    recs, tlcs = splitobs.evaluate(bib, texts, how)
+def t3(chk: core.Check, bib, texts: List[str], how: str = "split", grammar: bool = False):
+    recs, tlcs = splitobs.evaluate(bib, texts, how, grammar=grammar)
     for r in tlcs:
         chk.add_tlc(r, "Oracle_Splitter (T3)", count_states=False)
     for r in recs:
